@@ -274,6 +274,48 @@ def check(run: Run) -> None:
                     run.report("C07/struct-terminator", {**c.describe(), "ops": [{"op": "parse", "data": d.hex(), "observed": [len(r[1].a), r[1].tail] if r[0] == "ok" else repr(r[1])[:200],
                                "expected": [2, 0x5A], "what": "the third element has all fields zero (only padding / unassigned bits set): it terminates the array"}]})
 
+    # null-terminated LEB128 arrays: the terminator is an element whose VALUE is zero, however it is encoded (80 00, 80 80 00 are zero too)
+    for kind in ("uleb128", "ileb128"):
+        text = f"struct main {{ {kind} a[]; uint8 tail; }};"
+        for zero in (b"\x00", b"\x80\x00", b"\x80\x80\x00"):
+            for compiled in (False, True):
+                d = b"\x05\x81\x01" + zero + bytes([0x5A, 7, 0, 9])
+                c = Case(text, endian="<", compiled=compiled)
+                c.ops = [("parse", d, 0)]
+                try:
+                    its = build_items(c)
+                except RuntimeError:
+                    continue
+                items += its
+                n_oracle += 1
+                r = structs.parse(c._cs, "main", d, 0) if getattr(c, "_cs", None) is not None else ("skip",)
+                if r[0] == "err" or (r[0] == "ok" and (list(r[1].a) != [5, 129] or r[1].tail != 0x5A)):
+                    failures += 1
+                    for it in its:
+                        explained.add(id(it))
+                    run.report("C07/leb128-terminator", {**c.describe(), "ops": [{"op": "parse", "data": d.hex(), "observed": [list(r[1].a), r[1].tail] if r[0] == "ok" else repr(r[1])[:200],
+                               "expected": [[5, 129], 0x5A], "what": "the third element decodes to zero: it terminates the array and is consumed"}]})
+
+    # a fixed-size multi-dimensional array is refused when a ROW has the wrong number of elements, even if the total matches
+    for kind in ("uint16", "E8", "P"):
+        text = f"{PRELUDE}struct main {{ {kind} m[2][3]; uint8 tail; }};"
+        for compiled in (False, True):
+            cs2 = structs.load(text, compiled=compiled)
+            v = cs2.main(bytes(range(1, 40)))
+            rows = [list(r_) for r_ in v.m]
+            n_oracle += 1
+            v.m = [rows[0][:2], rows[1] + rows[0][2:]]        # 2 + 4 elements
+            try:
+                out = v.dumps()
+                failures += 1
+                run.report("C07/row-length-not-refused", {"definition": text, "cstruct_kwargs": {"endian": "<", "pointer": None}, "load_kwargs": {"compiled": compiled, "align": False},
+                           "ops": [{"op": "dump m[2][3] holding rows of 2 and 4 elements", "observed": "dumps " + out.hex(), "expected": "ArraySizeError"}]})
+            except Exception as e:  # noqa: BLE001
+                if type(e).__name__ != "ArraySizeError":
+                    failures += 1
+                    run.report("C07/row-length-not-refused", {"definition": text, "cstruct_kwargs": {"endian": "<", "pointer": None}, "load_kwargs": {"compiled": compiled, "align": False},
+                               "ops": [{"op": "dump m[2][3] holding rows of 2 and 4 elements", "observed": type(e).__name__, "expected": "ArraySizeError"}]})
+
     # negative counts, including the value the library uses internally as its EOF sentinel (-0xE0F): max(0, expr) = 0 elements
     for kind in ("uint8", "uint16", "char", "P"):
         text = f"{PRELUDE}struct main {{ uint16 n; uint16 m; {kind} a[m - n]; uint8 tail; }};"
